@@ -259,6 +259,25 @@ def run_case_whole(case):
         opts["min_step"] = float(10 ** g.uniform(-3, -0.3))
     STATE["gen"] = "run"
     rec = smcrun.Recorder(abort_on_stall=True, keep_vectors=False)
+    import pickle
+
+    payloads = []
+    opts["checkpoint_callback"] = lambda st: payloads.append(pickle.dumps(st))
+    opts["checkpoint_every"] = 1
+
+    def other_target(o):
+        """the run is continued from a checkpoint under another target (scalar <-> ramp, other values, other rate)"""
+        o = {k: v for k, v in o.items() if k not in ("checkpoint_callback", "checkpoint_every", "target_efficiency", "target_efficiency_rate")}
+        if g.random() < 0.5:
+            t0 = float(g.uniform(0.1, 0.5))
+            o["target_efficiency"] = (t0, float(g.uniform(t0 + 0.1, 0.95)))
+            o["target_efficiency_rate"] = float(g.choice([1.0, 2.0, 0.5]))
+        else:
+            o["target_efficiency"] = float(g.uniform(0.1, 0.9))
+        o["rng"] = np.random.default_rng(int(g.integers(2**31)))
+        o["resume_from"] = payloads[max(0, len(payloads) // 2 - 1)]
+        return o
+
     if mode == "scripted":
         n = int(g.integers(2, 400))
         kind = KINDS[g.integers(len(KINDS))]
@@ -268,13 +287,24 @@ def run_case_whole(case):
         STATE["tag"] = f"run-scripted/{xpn} kind={kind} spread={spread:.3g}"
         opts["sampler_kwargs"] = {"n_steps": 1}
         smcrun.run(sc.aspire(), n, "smc", opts, identity=True, max_calls=3000, rec=rec)
+        if len(payloads) >= 3:
+            STATE["tag"] += " [continued from a checkpoint under another target]"
+            STATE["counters"]["runs_continued_under_another_target"] += 1
+            smcrun.run(sc.aspire(), n, "smc", other_target(opts), identity=True, max_calls=3000, rec=smcrun.Recorder(abort_on_stall=True, keep_vectors=False))
     else:
         sig = float(10 ** g.uniform(-2, 0))
         t = Target([Coord("box", -5.0, 5.0, float(g.uniform(-2, 2)), sig) for _ in range(int(g.integers(1, 3)))])
         a, _ = make_aspire(t, xpn, seed=int(g.integers(1000)))
         STATE["tag"] = f"run-moving/{xpn} sigma={sig:.3g}"
         opts["sampler_kwargs"] = {"n_steps": 2}
-        smcrun.run(a, int(g.integers(20, 200)), "smc", opts, identity=False, max_calls=3000, rec=rec)
+        n = int(g.integers(20, 200))
+        seed_a = int(g.integers(1000))
+        smcrun.run(a, n, "smc", opts, identity=False, max_calls=3000, rec=rec)
+        if len(payloads) >= 3:
+            STATE["tag"] += " [continued from a checkpoint under another target]"
+            STATE["counters"]["runs_continued_under_another_target"] += 1
+            a2, _ = make_aspire(t, xpn, seed=seed_a)
+            smcrun.run(a2, n, "smc", other_target(opts), identity=False, max_calls=3000, rec=smcrun.Recorder(abort_on_stall=True, keep_vectors=False))
 
 
 def run_case(case):
